@@ -35,13 +35,28 @@ RULE = ("dense parameter grids (cut-off/centre in [1e-3, pi-1e-3], bandwidth in 
         "object called on 1-4 signals (list / tuple / Stream / generator / iterator) whose outputs are alive together and "
         "consumed sequentially / round-robin / randomly (entry combhist); constant lowpass / highpass / resonator / gammatone "
         "designs run for 2000-5000 (thorough 20000) samples against the C04 difference equation on the model "
-        "coefficients (entry run); a case is non-trivial when the "
+        "coefficients (entry run); "
+        "CALL SHAPES (gen_calls): every StrategyDict called directly (default strategy: lowpass=pole, highpass=z, resonator=poles_exp, "
+        "comb=fb, gammatone=sampled, erb=gm90; the call must also equal the named default strategy's), every strategy by [] / "
+        "attribute / alias name with positional / keyword / mixed arguments (every strategy at least once all-keyword), parameters "
+        "LEFT OUT (comb alpha, comb.tau tau, gammatone.sampled phase / eta / both, erb Hz), parameters spelled as int / bool / "
+        "Fraction where the value allows, gammatone.sampled for every eta 1..6 with zero and non-zero phase, cut-offs and centre "
+        "frequencies written `f * Hz` with sHz(rate), boundary cut-offs 0 / 1e-9 / 1e-5 / pi-1e-5 / pi-1e-9 / pi (coefficients only), "
+        "erb with Hz omitted on both sides of the 7 Hz refusal (7.0, the double below it, ints, Fractions), erb over list / tuple / "
+        "Stream / generator with and without an item that is refused (entry erbmap); a case is non-trivial when the "
         "implementation returned a filter (no exception; history: at least one instant read and no unexpected exception); "
         "distinct = distinct JSON case")
 TRUSTED = [
     "hand-written generic Lean transcription ALV/Model/C13.lean of the design strategies (modelled, not verified: "
     "ZFilter/Poly operator plumbing that turns the design expression into coefficients, thub/Stream broadcasting)",
-    "Float evaluation of the model (Lean runtime, C libm) vs CPython floats: compared with tolerance 1e-9*(1+|x|)",
+    "Float evaluation of the model (Lean runtime, C libm) vs CPython floats: the model copies the code's operation order, so the "
+    "coefficients of lowpass / highpass / resonator / comb / klapuri designs (constant, Stream-valued and in histories), erb and "
+    "gammatone_erb_constants are compared within 4 ulp of the largest coefficient (measured on this machine: bit-exact, histogram "
+    "coef_ulp; the 4 ulp leave room for another libm); gammatone.sampled / slaney sections are divided by a MEASURED gain "
+    "(abs(freq_response)) and are compared up to one common factor within 1e-9 + 64 ulp * condition number",
+    "call shapes: which python call a case stands for (strategy lookup, positional / keyword, omitted parameters, numeric type) is "
+    "built by harness/props/c13.py:_real_call; the Lean side sees only which parameters are absent (ALV/Model/C13Call.lean) - that "
+    "`lowpass.pole`, `lowpass['pole']` and an alias are the same function object is StrategyDict's job (extra checks alias:*)",
     "poles of the real filter are computed by the harness from filt.denominator (closed form, orders 1 and 2)",
     "histories: the constant designs of the model are pure functions of their arguments, so 'a design does not depend on "
     "earlier calls, on the type of a number that compares equal, or on which other designs exist' holds for the model by "
@@ -66,8 +81,13 @@ ASSUMPTIONS = [
     "the differentiated numerator never vanishes at the centre frequency: closed form with Eulerian polynomials, "
     "gammatone_sampled_numerator_closed_form / _ne_zero) - over the reals; for eta >= 5 near 0 or pi the Float evaluation "
     "is dominated by rounding (see the tolerance line below)",
-    "the branch `if not denR: denR = 1` of lowpass.z / highpass.z is unreachable with binary floats (no double has "
-    "cos(x) == 0); it is covered by the theorems (cut-off pi/2 over the reals), not by the tie",
+    "the branch `if not denR: denR = 1` of lowpass.z / highpass.z (lazy_filters.py 1407, 1423, the only anchored lines of the "
+    "property no case executes) is unreachable with binary floats (no double has cos(x) == 0); it is covered by the theorems "
+    "(cut-off pi/2 over the reals), not by the tie; phon2dB (lazy_auditory.py 261-290, listed by the anchor tool) needs scipy and "
+    "is not part of the property",
+    "erb / gammatone_erb_constants have no clause in the property text; their documented behaviour is what is proved and tied "
+    "(closed forms, units, the Hz=None refusal below 7, elementwise mapping, the 1/a_n and 3 dB identities)",
+    "boundary cut-offs 0 and pi (outside the contract's quantifier): only the coefficients are compared with the model",
     "histories: 'sample by sample' is read as: a design pulls exactly one value of each Stream-valued parameter for every "
     "instant of its coefficients, when that instant is first requested, and none when it is built (otherwise a ControlStream "
     "changed by the caller would act late, and designs sharing one Stream would not get consecutive values); the pull counts "
@@ -85,14 +105,18 @@ ASSUMPTIONS = [
     "freq_response evaluation (sum|c_k| / |sum c_k z^k|); for gammatone.sampled with eta >= 5 at centre frequencies "
     "within ~1e-2 of 0 or pi rounding dominates and the unit-gain check becomes vacuous (histogram gammatone_gain_tolerance)",
 ]
-MANIFEST = {"text": "Lean 4 theorems (57, no sorry/axiom, no PENDING statement) over R about the generic [TrigField] design "
+MANIFEST = {"text": "Lean 4 theorems (72, no sorry/axiom, no PENDING statement) over R about the generic [TrigField] design "
                     "definitions the driver runs at Float: lowpass/highpass gains, half power, monotonicity, pole radii (8 strategies); "
                     "resonators: unit gain, stability, pole radius exp(-bw/2), for z_exp exactly on |cos f| <= 1/cosh(bw/2) (iff; outside "
                     "it a real pole of larger modulus: recorded finding); combs = their difference equations; gammatone slaney / klapuri / "
                     "sampled: EVERY section has unit gain at the centre frequency and poles A e^{+-jf}, A = e^{-bw} < 1 - for sampled for "
                     "every order eta and phase (the numerator after eta-1 passes of ZFilter.diff(mul_after=-z) in closed form with "
-                    "Eulerian polynomials; it never vanishes at e^{jf}); histories of designs sharing parameter objects; tied to /repo "
-                    "by a differential correspondence (Float twin, tol 1e-9) run on every check",
+                    "Eulerian polynomials; it never vanishes at e^{jf}); histories of designs sharing parameter objects; the calls with "
+                    "omitted parameters / default strategies (Option-valued call model), erb closed forms / units / monotonicity / Hz=None "
+                    "refusal / elementwise mapping, gammatone_erb_constants closed form and 3 dB identity, the time-domain run the driver "
+                    "evaluates (runFilter over C04.fspec) = the comb recursions pointwise incl. n < delay; tied to /repo by a "
+                    "differential correspondence (Float twin in the code's operation order, coefficients within 4 ulp - measured "
+                    "bit-exact) run on every check over call shapes, numeric spellings, units and boundary cut-offs",
             "technique": "Lean 4 proof over R of generic [TrigField] design definitions + Float twin tied to the implementation "
                          "+ histories of designs sharing parameter objects (Lean state machine = state-free spec, proved) "
                          "+ long-delay / long-run time-domain runs against the difference equations"}
